@@ -56,12 +56,13 @@ Lemma run_from ops : forall s acc,
 Proof.
   induction ops as [|o ops IH]; intros s acc Hr Ho; cbn [fold_left texts_since_clear].
   - split; assumption.
-  - destruct o as [ins evs| |xs|xs|].
+  - destruct o as [ins evs| |xs|xs| |].
     + apply IH; rewrite step_exec; cbn [raw out].
       * rewrite concat_app, Hr. cbn. now rewrite app_nil_r.
       * unfold view_of. rewrite flat_map_app. fold (view_of acc). rewrite Ho. cbn [flat_map].
         rewrite app_nil_r. destruct (text_of evs); [now rewrite app_nil_r|reflexivity].
     + apply IH; reflexivity.
+    + apply IH; assumption.
     + apply IH; assumption.
     + apply IH; assumption.
     + apply IH; assumption.
@@ -78,21 +79,25 @@ Theorem silent_exec_adds_nothing s ins evs :
   text_of evs = [] -> raw (step s (Exec ins evs)) = raw s /\ out (step s (Exec ins evs)) = out s.
 Proof. intros H. rewrite step_exec. cbn. rewrite H. now rewrite app_nil_r. Qed.
 
-(* each execution's own record holds exactly its share, in order *)
-Fixpoint exec_texts (ops : list op) : list str :=
+(* each execution's own record holds exactly its share, in order: the records are those of the executions since the history
+   was last cleared (clear_context), oldest first - so the k-th execution since then is found at position k *)
+Fixpoint ctx_texts (ops : list op) (acc : list str) : list str :=
   match ops with
-  | [] => []
-  | Exec _ evs :: ops' => text_of evs :: exec_texts ops'
-  | _ :: ops' => exec_texts ops'
+  | [] => acc
+  | Exec _ evs :: ops' => ctx_texts ops' (acc ++ [text_of evs])
+  | ClearContext :: ops' => ctx_texts ops' []
+  | _ :: ops' => ctx_texts ops' acc
   end.
+Definition exec_texts (ops : list op) : list str := ctx_texts ops [].
 
 Lemma ctxs_from ops : forall s,
-  map c_output (ctxs (fold_left step ops s)) = map c_output (ctxs s) ++ exec_texts ops.
+  map c_output (ctxs (fold_left step ops s)) = ctx_texts ops (map c_output (ctxs s)).
 Proof.
-  induction ops as [|o ops IH]; intros s; cbn [fold_left exec_texts].
-  - now rewrite app_nil_r.
-  - destruct o as [ins evs| |xs|xs|]; rewrite IH.
-    + rewrite step_exec. cbn [ctxs]. rewrite map_app. cbn. now rewrite <- app_assoc.
+  induction ops as [|o ops IH]; intros s; cbn [fold_left ctx_texts].
+  - reflexivity.
+  - destruct o as [ins evs| |xs|xs| |]; rewrite IH.
+    + rewrite step_exec. cbn [ctxs]. rewrite map_app. reflexivity.
+    + reflexivity.
     + reflexivity.
     + reflexivity.
     + reflexivity.
@@ -100,7 +105,13 @@ Proof.
 Qed.
 
 Theorem ctx_has_its_share ops : map c_output (ctxs (run ops)) = exec_texts ops.
-Proof. unfold run. now rewrite ctxs_from. Qed.
+Proof. unfold run, exec_texts. now rewrite ctxs_from. Qed.
+
+(* position = identity of a record: after any history, the record at position k is the k-th execution since the last
+   clear_context *)
+Theorem record_lookup_by_position ops k :
+  nth_error (map c_output (ctxs (run ops))) k = nth_error (exec_texts ops) k.
+Proof. now rewrite ctx_has_its_share. Qed.
 
 (* the queue: what an execution's input() calls return, and what is left *)
 Theorem inputs_fifo_once s ins evs :
